@@ -314,6 +314,10 @@ class Interp:
     def h_bind(self, name, v, n, env, ctx):
         return v
 
+    def h_returns(self, rets, entry_env, ctx):
+        """the value of a call whose body has several return statements: [(value, node, env at the return)] -> value | None"""
+        return None
+
     def h_raw_entry_args(self, func, args, kwargs, n, ctx):
         """the arguments with which the wrapper(s) of an analysed entry point finally call the function itself"""
         return args, kwargs
@@ -1369,6 +1373,11 @@ class Interp:
                     nv = self.h_none(sub)
                     ret = nv if ret is None else self.join_generic(ret, nv)
                     exit_env = self.join_env(exit_env, self._state_only(out))
+                if len(sub.rets) + (1 if out is not None else 0) > 1:
+                    # several exits: a domain that tracks path conditions can say *which* value is returned when
+                    r2 = self.h_returns(list(sub.rets) + ([(self.h_none(sub), None, out)] if out is not None else []), e, sub)
+                    if r2 is not None:
+                        ret = r2
                 new = Summary(ret, list(sub.effects), list(sub.raises))
                 new.state = exit_env
                 pout = {}
